@@ -205,7 +205,10 @@ contract(
         'neighbor': obj(None, session=obj(None, peer_as=int_(0, 0xFFFFFFFF), local_as=int_(1, 0xFFFFFFFF), router_id=obj(None, **{'int!': int_(1, 0xFFFFFFFF)}))),
     },
     callees={'RouterID': _rid},
-    lets={'R': 'self.received_open', 'N': 'neighbor.session', 'c_as': 'neighbor.session.peer_as != 0 and self.peer_as != neighbor.session.peer_as', 'c_rid0': 'int(self.received_open.router_id) == 0', 'c_coll': 'self.received_open.asn == neighbor.session.local_as and int(self.received_open.router_id) == int(neighbor.session.router_id)', 'c_hold': '0 < self.received_open.hold_time and self.received_open.hold_time < 3'},
+    # c_as: Bad Peer AS -- the TRUE AS of the peer (self.peer_as: the four octet one when it sent it) differs from the configured
+    # one, or is 0 (RFC 7607).  c_coll: iBGP is "the peer's true AS is ours", NOT "the two octet field equals ours" (that
+    # field is AS_TRANS for a large AS; the contract used to copy that comparison from the code, and with it the defect).
+    lets={'R': 'self.received_open', 'N': 'neighbor.session', 'c_as': 'self.peer_as == 0 or (neighbor.session.peer_as != 0 and self.peer_as != neighbor.session.peer_as)', 'c_rid0': 'int(self.received_open.router_id) == 0', 'c_coll': 'self.peer_as == neighbor.session.local_as and int(self.received_open.router_id) == int(neighbor.session.router_id)', 'c_hold': '0 < self.received_open.hold_time and self.received_open.hold_time < 3'},
     ensures=[
         # RFC 4271 6.2: Bad Peer AS
         'implies(c_as, result is not None and result[0] == 2 and result[1] == 2)',
